@@ -393,7 +393,9 @@ func main() {
 			fmt.Fprintln(os.Stderr, "c07:", sop)
 			os.Exit(3)
 		}
-		out.Case(sop, ans, cls, true)
+		if sop != "" {
+			out.Case(sop, ans, cls, true)
+		}
 		out.Case(top, "accept", "trace2", true)
 	}
 	out.Close(nil)
